@@ -173,9 +173,12 @@ def c18(tapes, params):
                 s.now += span * (1 + sch.draw(30, 'frac')) / 100.0
             elif k == 'big':
                 s.now += span * (1 + sch.draw(3, 'big'))
-            # drain: call load(limit) until it returns no events
+            # drain: call load(limit) until it returns no events -- or, sometimes, only once or twice
+            # (a caller that takes one batch per tick); lateness is judged after full drains only
             w = s.now
             calls = 0
+            partial = sch.chance(1, 4, 'partial') and limit is not None
+            max_calls = 1 + sch.draw(2, 'pcalls') if partial else 5000
             if E is None:
                 # timestamps compare equal within 1 ms in the library: a first load that close to a
                 # file's first record may legitimately start in either file
@@ -206,7 +209,7 @@ def c18(tapes, params):
                 evlog.append((round(w - basis, 6), len(events), st))
                 if os.environ.get('C18DBG'):
                     print('LOAD hist=%s' % hfiles.timestamp(hist_time(w)), st, [(str(e['timestamp']), e['values']) for e in events], file=sys.stderr)
-                if not events or calls > 5000:
+                if not events or calls >= max_calls:
                     break
             hw = hist_time(w)
             # never early
@@ -231,8 +234,8 @@ def c18(tapes, params):
                 kind = 'duplicate' if got[i] in got[:i] else ('skipped' if got[i] in want[i:] else 'foreign')
                 bad = (kind, want[i][0] if i < len(want) else got[i][0],
                        'delivery #%d is %r, the log has %r there' % (i, got[i], want[i] if i < len(want) else None))
-            elif ld.state != ld.FAILED:
-                # never late: everything due has been delivered by the end of this drain
+            elif ld.state != ld.FAILED and not (partial and events):
+                # never late: everything due has been delivered by the end of this (full) drain
                 due = [r for r in E if r[0] <= hw + la - EPS]
                 if len(got) < len(due):
                     bad = ('late', want[len(got)][0], 'after a drain at historical time %.3f (+%.3f look-ahead) %d of %d due records were delivered; '
@@ -248,7 +251,7 @@ def c18(tapes, params):
             if ld.state == ld.COMPLETE:
                 complete_at = w
                 break
-            if hw > last_t + la + 1.0 and ld.state != ld.COMPLETE:
+            if hw > last_t + la + 1.0 and ld.state != ld.COMPLETE and not partial:
                 # bounded liveness: the clock has passed the last record (+ look-ahead); a drain ends at the
                 # first load that returns no event, so allow two further drains before demanding COMPLETE
                 past_end += 1
